@@ -619,7 +619,7 @@ class Prop(fw.PropBase):
                                 cases.append(cs)
         n_exh = len(cases)
         # 2. random: longer reads, indel CIGARs, pairs, qcfail input, motif errors
-        N = 3000 if quick else 40000
+        N = 3000 if quick else 150000
         for _ in range(N):
             c = rng.choice(self.ALL_CFG)
             reverse = rng.random() < 0.5
